@@ -618,6 +618,60 @@ pub fn supplemental_lists(v_ix: &rt::Ix, pre: &Ledger, post: &Ledger, salt: u64,
     for k in s1.iter().chain(s2.iter()) {
         ix2.accounts.push(rt::Meta { pubkey: *k, is_signer: false, is_writable: true });
     }
+    // the same list once more with an EMPTY slice of an accepted type in front ("no accounts of that kind" says nothing about
+    // the slices behind it): same outcome
+    {
+        let mut ix4 = ix2.clone();
+        let mut d = v_ix.data[..v_ix.data.len() - 1].to_vec();
+        d.push(1);
+        d.extend_from_slice(&(n_slices + 1).to_le_bytes());
+        // an empty slice of the other pool's supplemental arrays if that pool sends none, else of the input token's hook accounts
+        let empty_ty: u8 = if n1 == 0 { 7 } else if n2 == 0 { 8 } else { 3 };
+        d.push(empty_ty);
+        d.push(0);
+        if n1 > 0 {
+            d.push(7);
+            d.push(n1 as u8);
+        }
+        if n2 > 0 {
+            d.push(8);
+            d.push(n2 as u8);
+        }
+        ix4.data = d;
+        let mut f4 = pre.clone();
+        let r4 = run(&mut f4, ix4);
+        cov.probe("supplemental_lists_behind_an_empty_slice");
+        if !r4.ok || pool_side_accounts(&f4, &lg) != pool_side_accounts(post, &lg) {
+            out.push(viol("supplemental_arrays_change_outcome", idx, format!("two_hop_swap_v2 with {} + {} supplemental tick arrays listed behind an empty slice: ok={} code={:?}, although it succeeds without them", n1, n2, r4.ok, r4.custom())));
+            return;
+        }
+    }
+    // ... and with the second pool's real arrays ONLY in the supplemental slice (its three regular slots hold another array
+    // of that pool), behind an empty slice for the first pool: the route needs what stands behind the empty slice
+    {
+        let others: Vec<Pubkey> = decode::tick_arrays_of_pool(pre, &lg.w2).into_iter().map(|(k, _)| k).filter(|k| !lg.sa2.tick_arrays.contains(k)).collect();
+        if let (Some(other), Some(i0)) = (others.first(), c.idx("tick_array_two_0")) {
+            let mut ix5 = v_ix.clone();
+            for k in 0..3 {
+                ix5.accounts[i0 + k].pubkey = *other;
+            }
+            let mut d = v_ix.data[..v_ix.data.len() - 1].to_vec();
+            d.push(1);
+            d.extend_from_slice(&2u32.to_le_bytes());
+            d.extend_from_slice(&[7, 0, 8, 3]);
+            ix5.data = d;
+            for k in lg.sa2.tick_arrays.iter() {
+                ix5.accounts.push(rt::Meta { pubkey: *k, is_signer: false, is_writable: true });
+            }
+            let mut f5 = pre.clone();
+            let r5 = run(&mut f5, ix5);
+            cov.probe("second_pool_arrays_only_behind_an_empty_slice");
+            if !r5.ok || pool_side_accounts(&f5, &lg) != pool_side_accounts(post, &lg) {
+                out.push(viol("supplemental_arrays_change_outcome", idx, format!("two_hop_swap_v2 with pool two's tick arrays given as supplemental arrays behind an empty slice for pool one: ok={} code={:?}, although the route succeeds with them in the regular slots", r5.ok, r5.custom())));
+                return;
+            }
+        }
+    }
     let mut f = pre.clone();
     let r = run(&mut f, ix2);
     cov.probe("supplemental_array_list_variants");
